@@ -52,24 +52,37 @@ theorem C06_earliest (f : Nat) (q : List Exp) : findExp f q = (proj f q).head? :
 theorem proj_mem_fn (f : Nat) (q : List Exp) (e : Exp) (h : e ∈ proj f q) : e.fn = f := by
   simp [proj] at h; exact h.2
 
+/-- What a call reports does not change when the expectation has served a call. -/
+theorem reportFor_served (b : Bool) (e : Exp) (a : List Int) : reportFor (Exp.served b e) a = reportFor e a := by
+  simp [reportFor, Exp.served, Exp.unknownParam, checksFor]
+
 /-- A call when the head of `f`'s FIFO is an ordinary expectation `e`: it is checked against `e`'s
-clauses, returns `e`'s value, and `e` is consumed when its time to live runs out. -/
+clauses (or, if one of them names a parameter the mock does not pass, reported once), returns `e`'s value,
+and `e` is consumed when its time to live runs out. -/
 theorem call_head (s : MState) (f : Nat) (args : List Int) (e : Exp) (rest : List Exp)
     (hq : proj f s.q = e :: rest) (ha : e.isAlways = false) (hn : e.isNever = false) :
-    (call s f args).2 = checksFor e args ++ [.ret e.ret]
+    (call s f args).2 = reportFor e args ++ [.ret e.ret]
     ∧ proj f (call s f args).1.q =
-        (if e.ttl - 1 ≤ 0 then rest
-         else { e with called := if e.times.isSome then e.called + 1 else e.called,
-                       triggered := e.triggered + 1, ttl := e.ttl - 1 } :: rest) := by
+        (if e.ttl - 1 ≤ 0 then rest else Exp.served (e.unknownParam args) e :: rest) := by
   obtain ⟨h1, h2, _, _, _⟩ := call_refines s f args
   have hfn : e.fn = f := proj_mem_fn f s.q e (by rw [hq]; exact List.mem_cons_self)
   have hb : (e.fn == f) = true := by simp [hfn]
+  have hsf : (Exp.served (e.unknownParam args) e).fn = f := by simp [Exp.served, hfn]
   rw [h1, h2, hq]
   simp only [call, findExp, List.find?_cons, hb, hn, Bool.false_eq_true, if_false, ha, modifyFirst, if_true,
     Bool.not_false, Bool.true_and]
   by_cases ht : e.ttl - 1 ≤ 0
-  · simp [ht, removeFirst, hfn]
+  · simp [ht, removeFirst, hsf]
   · simp [ht]
+
+/-- The ordinary case: every clause names a parameter the mock passes. -/
+theorem reportFor_known (e : Exp) (args : List Int) (h : e.unknownParam args = false) : reportFor e args = checksFor e args := by
+  simp [reportFor, h]
+
+/-- The other case: one failure report attributed to the expectation, and no clause is applied. -/
+theorem C06_unknown_parameter (e : Exp) (args : List Int) (h : e.unknownParam args = true) :
+    reportFor e args = [.check (some e.id) false] := by
+  simp [reportFor, h]
 
 /-- `calls` performs a list of calls to `f`. -/
 def calls (s : MState) (f : Nat) : List (List Int) → MState × List (List Out)
@@ -81,7 +94,7 @@ consecutive calls: each of them is checked against its clauses and gets its retu
 the `n`-th it is gone, so the next call is served by the next expectation for that function. -/
 theorem C06_times (n : Nat) : ∀ (s : MState) (f : Nat) (argss : List (List Int)) (e : Exp) (rest : List Exp),
     proj f s.q = e :: rest → e.ttl = (n : Int) + 1 → (n : Int) + 1 < UNL → argss.length = n + 1 →
-    (calls s f argss).2 = argss.map (fun a => checksFor e a ++ [.ret e.ret])
+    (calls s f argss).2 = argss.map (fun a => reportFor e a ++ [.ret e.ret])
     ∧ proj f (calls s f argss).1.q = rest := by
   induction n with
   | zero =>
@@ -108,16 +121,17 @@ theorem C06_times (n : Nat) : ∀ (s : MState) (f : Nat) (argss : List (List Int
       have hnot : ¬ (e.ttl - 1 ≤ 0) := by rw [httl]; omega
       simp only [hnot, if_false] at h2
       have hlen' : as.length = n + 1 := by simpa using hl
-      obtain ⟨i1, i2⟩ := ih (call s f a).1 f as _ rest h2 (by show e.ttl - 1 = (n : Int) + 1; omega) (by omega) hlen'
+      obtain ⟨i1, i2⟩ := ih (call s f a).1 f as _ rest h2 (by simp only [Exp.served, ha, Bool.false_eq_true, if_false]; omega) (by omega) hlen'
       simp only [calls, List.map_cons, h1]
       refine ⟨?_, i2⟩
       rw [i1]
-      simp [checksFor]
+      have hret : (Exp.served (e.unknownParam a) e).ret = e.ret := rfl
+      simp only [reportFor_served, hret]
 
 /-- An `always_expect` at the head of `f`'s FIFO serves every call and stays. -/
 theorem C06_always (s : MState) (f : Nat) (args : List Int) (e : Exp) (rest : List Exp)
     (hq : proj f s.q = e :: rest) (ha : e.isAlways = true) :
-    (call s f args).2 = checksFor e args ++ [.ret e.ret]
+    (call s f args).2 = reportFor e args ++ [.ret e.ret]
     ∧ ∃ e', proj f (call s f args).1.q = e' :: rest ∧ e'.isAlways = true ∧ e'.ret = e.ret ∧ e'.cons = e.cons ∧ e'.id = e.id := by
   obtain ⟨h1, h2, _, _, _⟩ := call_refines s f args
   have hfn : e.fn = f := proj_mem_fn f s.q e (by rw [hq]; exact List.mem_cons_self)
@@ -128,7 +142,9 @@ theorem C06_always (s : MState) (f : Nat) (args : List Int) (e : Exp) (rest : Li
   rw [h1, h2, hq]
   simp only [call, findExp, List.find?_cons, hb, hn, Bool.false_eq_true, if_false, ha, modifyFirst, if_true,
     Bool.not_true, Bool.false_and]
-  exact ⟨trivial, _, rfl, by simpa [Exp.isAlways] using ha, rfl, rfl, rfl⟩
+  refine ⟨trivial, _, rfl, ?_, rfl, rfl, rfl⟩
+  simp only [Exp.served, Exp.isAlways] at ha ⊢
+  simp [ha]
 
 /-- What a call reports depends on the queue and the mock mode only. -/
 theorem call_out_congr (s s' : MState) (f : Nat) (a : List Int) (hq : s.q = s'.q) (hm : s.mode = s'.mode) :
